@@ -222,6 +222,24 @@ def run(rep, tier):
             seg_[m_:ny_ - m_, m_:nx_ // 2] = 1
             seg_[m_:ny_ - m_, nx_ // 2:nx_ - m_] = 2
             segm = SegmentationImage(seg_)
+        disjoint_parent = False
+        if k % 8 == 6 and segm.nlabels >= 2:
+            # a parent made of two disjoint pieces (two detections given one label): either every piece is divided among the children or the
+            # call refuses the source ('Deblending failed'); pixels of a piece must never silently keep the parent label next to children
+            from photutils.segmentation import SegmentationImage
+            d_ = segm.data.copy()
+            labs_ = [int(v) for v in segm.labels]
+            areas_ = [int(v) for v in segm.areas]
+            small = labs_[int(np.argmin(areas_))]
+            big = labs_[int(np.argmax(areas_))]
+            if small != big:
+                sel_small = d_ == small
+                d_[sel_small] = big
+                segm = SegmentationImage(d_)
+                disjoint_parent = True
+                # the small piece is faint and flat (at the parent's minimum): it lies below every deblending threshold and gets no marker
+                img = img.copy()
+                img[sel_small] = float(img[d_ == big].min())
         if r.random() < 0.3 and segm.nlabels > 1:      # label gaps
             segm.remove_label(int(r.choice(list(segm.labels))))
         elif r.random() < 0.35 and segm.nlabels > 1:
@@ -264,6 +282,10 @@ def run(rep, tier):
         try:
             ser = call(1)
         except Exception as e:
+            if disjoint_parent and isinstance(e, ValueError) and 'Deblending failed' in str(e):
+                rep.count('refused:disjoint-parent')
+                rep.case(('disjoint', img.tobytes()), False, kind='disjoint-parent:refused')
+                continue
             rep.violation(f'deblend-raises:{type(e).__name__}', f'deblend_sources raised {e!r}', replay)
             continue
         if not (np.array_equal(img, snap_img) and np.array_equal(segm.data, snap_seg)):
@@ -303,6 +325,9 @@ def run(rep, tier):
                 try:
                     out3 = deblend_sources(img, segm, labels=la3, nproc=1, progress_bar=False, **p3)
                 except Exception as e:                          # noqa: BLE001
+                    if disjoint_parent and isinstance(e, ValueError) and 'Deblending failed' in str(e):
+                        rep.count('refused:disjoint-parent')
+                        continue
                     rep.violation(f'deblend-raises:{type(e).__name__}', f'deblend_sources raised {e!r}', dict(replay, params=p3, labels=la3))
                     continue
             rep.count('gap-collision-probe')
@@ -316,6 +341,9 @@ def run(rep, tier):
                 try:
                     out2 = deblend_sources(img, segm, labels=labels_arg, nproc=1, progress_bar=False, **p2)
                 except Exception as e:                          # noqa: BLE001
+                    if disjoint_parent and isinstance(e, ValueError) and 'Deblending failed' in str(e):
+                        rep.count('refused:disjoint-parent')
+                        continue
                     rep.violation(f'deblend-raises:{type(e).__name__}', f'deblend_sources raised {e!r}', dict(replay, params=p2))
                     continue
             rep.count('no-split-relabel-probe')
